@@ -1125,7 +1125,9 @@ pub fn gen_shader(ch: &mut Ch, p: &Profile) -> Shader {
     if p.out_as_storage > 0 {
         let outs: Vec<usize> = sh.entries.iter().filter_map(|e| if let EResult::Struct(i) = &e.result { Some(*i) } else { None }).collect();
         for st in outs {
-            if ch.chance(p.out_as_storage, 8) {
+            // a result struct made of builtins only would become a Rust struct without fields
+            let has_field = sh.structs[st].members.iter().any(|m| !matches!(m.io, Io::Builtin(_)));
+            if ch.chance(p.out_as_storage, 8) && has_field {
                 let used: HashSet<u32> = sh.globals.iter().filter_map(|g| g.binding).filter(|b| b.0 == 0).map(|b| b.1).collect();
                 let b = (0..).find(|b| !used.contains(b)).unwrap();
                 let ty = match ch.below(3) {
